@@ -54,8 +54,10 @@ type EvalDoc struct {
 	Nums  map[string][]float64
 	Dates map[string][]time.Time
 	Bools map[string][]bool
-	// nested items: per element, the same maps restricted to that element
-	Items []*EvalDoc
+	// Kids holds, per nested array name ("items", "parts", "extras"), one node per array element carrying only
+	// that element's own fields (and its own Kids); the maps above hold this node's own fields plus, at the root,
+	// the flattened fields of all descendants (the non-nested view)
+	Kids map[string][]*EvalDoc
 }
 
 func simpleTok(s string) []string {
@@ -102,8 +104,10 @@ func Analyse(d model.Doc) *EvalDoc {
 	if d.HasFlag {
 		e.Bools["flag"] = append(e.Bools["flag"], d.Flag)
 	}
+	e.Kids = map[string][]*EvalDoc{}
 	for i, it := range d.Items {
 		ie := newEvalDoc(d.ID)
+		ie.Kids = map[string][]*EvalDoc{}
 		ie.addKw("items.color", it.Color, 0)
 		ie.Nums["items.size"] = append(ie.Nums["items.size"], it.Size)
 		e.addKw("items.color", it.Color, i)
@@ -112,7 +116,19 @@ func Analyse(d model.Doc) *EvalDoc {
 			ie.addText("items.note", it.Note, 0)
 			e.addText("items.note", it.Note, i)
 		}
-		e.Items = append(e.Items, ie)
+		for j, p := range it.Parts {
+			pe := newEvalDoc(d.ID)
+			pe.addKw("items.parts.code", p.Code, 0)
+			ie.Kids["parts"] = append(ie.Kids["parts"], pe)
+			e.addKw("items.parts.code", p.Code, i*8+j)
+		}
+		e.Kids["items"] = append(e.Kids["items"], ie)
+	}
+	for i, x := range d.Extras {
+		xe := newEvalDoc(d.ID)
+		xe.addKw("extras.kind", x.Kind, 0)
+		e.Kids["extras"] = append(e.Kids["extras"], xe)
+		e.addKw("extras.kind", x.Kind, i)
 	}
 	return e
 }
@@ -392,7 +408,9 @@ func (q Q) Eval(e *EvalDoc, cx *Ctx) bool {
 	panic(fmt.Sprintf("qeval: unhandled query type %q", q.T))
 }
 
-func isKw(f string) bool { return f == "kw" || f == "tags" || f == "ver" || f == "items.color" }
+func isKw(f string) bool {
+	return f == "kw" || f == "tags" || f == "ver" || f == "items.color" || f == "items.parts.code" || f == "extras.kind"
+}
 
 // Bleve builds the bleve query.
 func (q Q) Bleve() query.Query {
